@@ -24,7 +24,8 @@ from harness.translate import gen as G
 
 PROPERTY = "C01"
 LEAN_MODULES = ["SigpyVerif.Props.C01", "SigpyVerif.Lemmas.C01Block", "SigpyVerif.Props.C09",
-                "SigpyVerif.Lemmas.C01Index", "SigpyVerif.Props.C01Leaves", "SigpyVerif.Props.C01LeavesGen"]
+                "SigpyVerif.Lemmas.C01Index", "SigpyVerif.Props.C01Leaves", "SigpyVerif.Props.C01MatMul",
+                "SigpyVerif.Props.C01LeavesGen", "SigpyVerif.Props.C01Gen", "SigpyVerif.Props.C01Ext"]
 THEOREMS = ["SigpyVerif.C01." + t for t in [
     # algebra of entry lists (Props/C01.lean)
     "applyF_append", "applyF_compE", "applyF_conjE", "coo_adjoint", "isAdj_of_entries", "isAdj_comp", "isAdj_comp3",
@@ -65,14 +66,33 @@ THEOREMS = ["SigpyVerif.C01." + t for t in [
     # leaf pairs on the regenerated loop nests and the unconditional theorem (Props/C01LeavesGen.lean)
     "updToEnt_swap", "updToEnt_adj", "interpEntries_grid", "interp_leaf_adjoint", "gridding_leaf_adjoint",
     "a2b_b2a_entries", "b2a_a2b_entries", "numBlks_same", "updToEnt_perm", "a2b_leaf_adjoint", "b2a_leaf_adjoint",
-    "leafProved_adjOK", "adj_denote_leaves", "normal_gram_leaves",
+    "ext_leaf_adjoint", "leafProved_adjOK", "adj_denote_leaves", "normal_gram_leaves",
+    # MatMul / RightMatMul leaf pairs for all valid symbolic parameters (Props/C01MatMul.lean): loop interchange,
+    # loop form of the model's entries, the Sum over the broadcast batch axes, the two leaf theorems
+    "flatMap_swap_perm", "loop4_congr", "loop4_map", "loop4_perm_23", "loop4_perm_13", "allIdx_append", "allIdx_pair",
+    "loopify", "len_sub2", "len_sub1", "take_app2", "getI_app2_0", "getI_app2_1", "getI_append_left",
+    "swapLast2_app2", "split_last2", "matmulSem_eq_C", "bshape_length", "mem_allIdx_length", "matmulSem_iff",
+    "mem_loop4", "compE_gather_perm", "inB_app2", "bcast_app2", "saOf_norm_le", "matmulSumAxes_eq", "mm_adj_cond",
+    "mm_adj_PQT", "mmE_inRange", "loop4_eq_map", "adjE_loop4", "compE_gather_loop4", "matmul_core",
+    "matmul_leaf_adjoint", "rmatmul_leaf_adjoint",
+    # the model's adjoint rules are the translation of every `_adjoint_linop` in linop.py (Props/C01Gen.lean, about
+    # Gen/LinopAdjoint.lean); FiniteDifference's generated tree has proved leaves only
+    "multiplySumAxes_gen", "matmulSumAxes_gen", "oshOf_sum", "adjLeaf_multiply_gen", "adjLeaf_matmul_gen",
+    "adjLeaf_rmatmul_gen", "adjLeaf_eq_gen", "adjLeaf_eq_gen_simple", "adj_eq_gen", "allLeaves_imp", "adj_denote_gen",
+    "allLeaves_vstackList", "finiteDifference_leaves", "finiteDifference_adjoint",
+    # leaf classes imported from C08 through the generated pairing table (Props/C01Ext.lean)
+    "matOf_congr", "matOf_isAdj", "sum_delta_right", "conv1Params_spec", "shapeProd_single", "conv_data_entries",
+    "conv_filt_entries", "conv_leaf_proved", "conv_leaf_adjoint", "conv_tree_adjoint",
 ]] + ["SigpyVerif.C09." + t for t in ["resize_transpose", "roll_inverse", "up_down_index", "b2a1_transpose_a2b1"]]
 
 MAXEL = 24  # largest input / output size of a generated operator
 
 
 def translate(ctx):
-    G.regenerate(ctx, ["Block", "UtilFormulas", "LinopFormulas", "Interp"])
+    # LinopAdjoint: every `_adjoint_linop`, the sum-axes helpers and the FiniteDifference factory (gen_c01.py);
+    # Conv*: imported (through Props/C08) by Props/C01Ext
+    G.regenerate(ctx, ["Block", "UtilFormulas", "LinopFormulas", "Interp", "LinopAdjoint",
+                       "ConvFormulas", "ConvWiring", "ConvLinops", "ConvParams"])
 
 
 # ---- protocol helpers -----------------------------------------------------------------------
@@ -851,13 +871,24 @@ def correspond(ctx, which=("M", "MH")):
                 "the Lean model's matrix; distinct by protocol line; all cases are non-empty operators")
     ctx.assumptions += [
         "numpy slicing / roll / tile / sum / matmul / reshape / transpose contracts (exercised by the correspondence)",
-        "leaf pairing L.H = adjoint of L: proved in Lean for Identity, Reshape, Transpose, Resize, Flip, Circshift, "
-        "Downsample, Upsample, Sum, Tile, Slice, Embed, Multiply, ArrayToBlocks, BlocksToArray, Interpolate, Gridding "
-        "(adj_denote_leaves; validity side conditions: positive factors / strides / extents, 0 <= shift <= n, "
-        "non-negative explicit resize shifts, real embedding of the rational kernel weights); for MatMul and "
-        "RightMatMul the pairing is validated by the exact matrix correspondence only (hypothesis of adj_denote)",
-        "FFT, NUFFT, Kaiser-Bessel interpolation, wavelet and convolution leaves are not in the Lean model: they are "
-        "covered by the search oracle (dot test) only; their theorems belong to C05/C06/C07/C08/C10",
+        "leaf pairing L.H = adjoint of L: proved in Lean for all 19 exactly representable classes - Identity, Reshape, "
+        "Transpose, Resize, Flip, Circshift, Downsample, Upsample, Sum, Tile, Slice, Embed, Multiply, MatMul, "
+        "RightMatMul (any batch broadcasting, adjoint flag, Reshape*Sum*MatMul plumbing), ArrayToBlocks, "
+        "BlocksToArray, Interpolate, Gridding (adj_denote_leaves; validity side conditions: positive factors / "
+        "strides / extents, 0 <= shift <= n, non-negative explicit resize shifts, real embedding of the rational "
+        "kernel weights) - and, imported from C08 through the generated pairing table, for ConvolveData / "
+        "ConvolveDataAdjoint / ConvolveFilter / ConvolveFilterAdjoint in the 1-D single-channel case "
+        "(conv_leaf_proved); FiniteDifference: the tree generated from the factory has proved leaves only",
+        "which class with which arguments every _adjoint_linop returns is translated from linop.py on every run "
+        "(Gen.LinopAdjoint) and proved equal to the model's adj (adjLeaf_eq_gen, adj_eq_gen); the per-class map "
+        "'attribute -> constructor parameter' is read from __init__ (super().__init__ / self.x = x), except the "
+        "normalised attributes Sum.axes, Tile.axes, Transpose.axes whose source text is pinned in gen_c01.py",
+        "oracle-only leaves (dot test, no C01 theorem): FFT / IFFT (C05 proves the conjugate-transpose table over the "
+        "Fin-indexed matrices, not bridged to entry lists here; the pairing FFT.H = IFFT with the same axes / center "
+        "is in the generated table adjOpaque), Wavelet / InverseWavelet (C10: list-level adjoint of its own model), "
+        "multi-channel / N-D / batched convolutions (C08 has the theorems; only the 1-D single-channel entry lists "
+        "are bridged), NUFFT / NUFFTAdjoint and Kaiser-Bessel Interpolate / Gridding (irrational weights), "
+        "ToDevice / AllReduce (no arithmetic), the MRI factories (C16)",
     ]
     rng = ctx.rng
     quick = ctx.tier == "quick"
@@ -881,6 +912,24 @@ def correspond(ctx, which=("M", "MH")):
         fd.append((findiff_spec(sh, axes), leaf_build("findiff", dict(sh=sh, axes=axes))))
     bad = run_corr(ctx, fd, "finite-difference", which)
     ctx.oblige("correspondence:%s.finite-difference" % ctx.prop, "correspondence", bad == 0, "%d disagreements" % bad)
+    if ctx.prop == "C01":
+        # the tree the translator generates from the factory's source (Gen.LinopAdjoint.finiteDifference), built by
+        # the driver, against the real factory
+        fdg, lines = [], []
+        for _ in range(8 if quick else 40):
+            sh = rshape(rng, maxel=8, hi=4)
+            axes = None if rng.random() < 0.4 else rand_axes(rng, len(sh), allow_empty=False)
+            ax = list(range(len(sh))) if axes is None else [a % len(sh) for a in sorted(axes)]
+            fdg.append((findiff_spec(sh, axes), leaf_build("findiff", dict(sh=sh, axes=axes))))
+            lines.append("%s findiff %s %s" % (ctx.prop, L(sh), L(ax)))
+        replies = ctx.driver_guarded(lines)
+        bad = 0
+        for (spec, A), ln, r in zip(fdg, lines, replies):
+            ctx.count("leaf:findiff-generated")
+            ctx.case(ln, sample=dict(line=ln, reply=r[:160]) if ctx.evaluations % 7 == 0 else None)
+            bad += corr_case(ctx, spec, A, r, "finite-difference-generated", which)
+        ctx.oblige("correspondence:%s.finite-difference-generated" % ctx.prop, "correspondence", bad == 0,
+                   "%d disagreements" % bad)
     ctx.traces = ctx.evaluations
 
 
